@@ -22,6 +22,7 @@ import (
 
 	"github.com/grafana/carbon-relay-ng/destination"
 	"github.com/grafana/carbon-relay-ng/matcher"
+	"github.com/grafana/carbon-relay-ng/rewriter"
 	"github.com/grafana/carbon-relay-ng/route"
 	"github.com/grafana/carbon-relay-ng/stats"
 	"github.com/grafana/carbon-relay-ng/table"
@@ -63,8 +64,6 @@ func (r *capRoute) UpdateDestination(index int, opts map[string]string) error {
 	return fmt.Errorf("capture route")
 }
 func (r *capRoute) Update(opts map[string]string) error { return fmt.Errorf("capture route") }
-
-var _ = matcher.Matcher{}
 
 func newTable(t *testing.T) (*table.Table, *capRoute) {
 	cfg, err := table.NewTableConfig("/dev/shm/verif-c19-nospool", "24h",
@@ -188,6 +187,244 @@ func TestOrdered(t *testing.T) {
 			time.Sleep(time.Millisecond)
 		}
 		lg.Emit(map[string]interface{}{"ev": "fin", "ooo": delta, "bad": bad, "badcall": badcall, "baderr": baderr})
+	}
+	lg.Emit(map[string]interface{}{"ev": "done", "n": len(lines)})
+}
+
+// ---------------------------------------------------------------------------
+// "Fold": a table with order validation on, a blacklist entry and rewriters that
+// fold the k input names of a history into one emitted name.  All goroutines
+// send points of all the names.  The driver records, per input name, the calls
+// made on it (begin/end stamped from one atomic counter), whether each point
+// arrived at the route (identified by the call id in the value field, whatever
+// name it arrives under), the bad-metrics record of the input name, and for
+// the history the calls made, the points that arrived and the increase of the
+// out_of_order counter.  spec/OrderedTrace.tla decides, input name by input name.
+
+type foldCall struct {
+	K   int   `json:"k"`   // input name of the history
+	Dot bool  `json:"dot"` // sent with a leading dot
+	Ts  int64 `json:"ts"`
+}
+
+type foldPhase struct {
+	H     int          `json:"h"`
+	NK    int          `json:"nk"`  // number of input names
+	Blk   int          `json:"blk"` // the input name that is blacklisted, -1: none
+	RW    string       `json:"rw"`  // "regex": one regular-expression rewriter, "plain": one substring rewriter per variant
+	Calls [][]foldCall `json:"calls"`
+}
+
+// capture route of the fold run: the value field of a point is its call id, unique in the run
+type foldRoute struct {
+	capRoute
+	seen map[int64]int
+	last map[int64]string
+}
+
+func (r *foldRoute) Dispatch(buf []byte) {
+	f := bytes.Fields(buf)
+	id := int64(-1)
+	if len(f) == 3 {
+		if v, err := strconv.ParseInt(string(f[1]), 10, 64); err == nil {
+			id = v
+		}
+	}
+	r.mu.Lock()
+	r.seen[id]++
+	r.last[id] = string(buf)
+	r.mu.Unlock()
+}
+
+const foldMaxVariants = 6
+
+func newFoldTable(t *testing.T, rw string) (*table.Table, *foldRoute) {
+	cfg, err := table.NewTableConfig("/dev/shm/verif-c19-nospool", "24h",
+		validate.LevelLegacy{Level: m20.NoneLegacy}, validate.LevelM20{Level: m20.NoneM20}, true)
+	if err != nil {
+		t.Fatal(err)
+	}
+	tbl := table.New(cfg)
+	r := &foldRoute{seen: map[int64]int{}, last: map[int64]string{}}
+	r.fwd = map[string]int{}
+	tbl.AddRoute(r)
+	// blacklisted variants are called w<i>x, the others v<i>x
+	bl, err := matcher.New("", "", "", "", `\.w[0-9]+x\.`, "")
+	if err != nil {
+		t.Fatal(err)
+	}
+	tbl.AddBlacklist(&bl)
+	if rw == "regex" {
+		x, err := rewriter.New(`/\.[vw][0-9]+x\./`, ".", "", -1)
+		if err != nil {
+			t.Fatal(err)
+		}
+		tbl.AddRewriter(x)
+	} else {
+		for i := 0; i < foldMaxVariants; i++ {
+			for _, c := range []string{"v", "w"} {
+				x, err := rewriter.New(fmt.Sprintf(".%s%dx.", c, i), ".", "", -1)
+				if err != nil {
+					t.Fatal(err)
+				}
+				tbl.AddRewriter(x)
+			}
+		}
+	}
+	return tbl, r
+}
+
+func TestFold(t *testing.T) {
+	hx.Out(t)
+	lines, err := hx.ReadLines(os.Getenv("VERIF_ORD_SCN"))
+	if err != nil {
+		t.Fatal(err)
+	}
+	lg := hx.NewLog(os.Getenv("VERIF_ORD_TRACE"))
+	defer lg.Close()
+	tag := fmt.Sprintf("s%dp%dt%d", hx.Seed(), os.Getpid(), time.Now().UnixNano()%1000000)
+	ooo := stats.Counter("unit=Err.type=out_of_order")
+	type tb struct {
+		tbl  *table.Table
+		cap  *foldRoute
+		used int
+	}
+	tables := map[string]*tb{}
+	nid := int64(0) // call ids are unique in the run
+	for _, l := range lines {
+		var ph foldPhase
+		if err := json.Unmarshal(l, &ph); err != nil {
+			t.Fatal(err)
+		}
+		if ph.NK > foldMaxVariants {
+			t.Fatalf("history %d: %d input names", ph.H, ph.NK)
+		}
+		x := tables[ph.RW]
+		if x == nil || x.used >= 100 { // bad-metrics keeps one record per key: start a fresh table now and then
+			if x != nil {
+				close(x.tbl.In)
+			}
+			tbl, cap := newFoldTable(t, ph.RW)
+			x = &tb{tbl: tbl, cap: cap}
+			tables[ph.RW] = x
+		}
+		x.used++
+		tbl, cap := x.tbl, x.cap
+		// input names (unique to the run: validate's map is process-global) and the name they are emitted under
+		keys := make([]string, ph.NK)
+		for i := range keys {
+			c := "v"
+			if i == ph.Blk {
+				c = "w"
+			}
+			keys[i] = fmt.Sprintf("c19f.%s.h%d.%s%dx.cpu", tag, ph.H, c, i)
+		}
+		type rec struct {
+			id, ts int64
+			k      int
+			dot    bool
+			line   string
+			b, e   int64
+			times  int
+		}
+		recs := make([][]rec, len(ph.Calls))
+		for g := range ph.Calls {
+			for _, c := range ph.Calls[g] {
+				nid++
+				name := keys[c.K]
+				if c.Dot {
+					name = "." + name
+				}
+				recs[g] = append(recs[g], rec{id: nid, ts: c.Ts, k: c.K, dot: c.Dot, line: fmt.Sprintf("%s %d %d", name, nid, c.Ts)})
+			}
+		}
+		before := ooo.Count()
+		var wg sync.WaitGroup
+		var seq, ready int64
+		ng := int64(len(ph.Calls))
+		for g := range ph.Calls {
+			wg.Add(1)
+			go func(rs []rec) {
+				defer wg.Done()
+				atomic.AddInt64(&ready, 1)
+				for atomic.LoadInt64(&ready) < ng { // spin barrier: all callers enter together
+					runtime.Gosched()
+				}
+				for i := range rs {
+					r := &rs[i]
+					buf := []byte(r.line)
+					r.b = atomic.AddInt64(&seq, 1)
+					tbl.Dispatch(buf)
+					r.e = atomic.AddInt64(&seq, 1)
+				}
+			}(recs[g])
+		}
+		wg.Wait()
+		delta := ooo.Count() - before
+		ncalls, nfwd := 0, 0
+		missing := map[string]bool{} // input names with a point that did not arrive and that are not blacklisted
+		evs := make([]map[int64]map[string]interface{}, ph.NK)
+		for i := range evs {
+			evs[i] = map[int64]map[string]interface{}{}
+		}
+		var emitted string
+		for g := range recs {
+			for i := range recs[g] {
+				r := &recs[g][i]
+				cap.mu.Lock()
+				r.times = cap.seen[r.id]
+				if r.times > 0 && emitted == "" {
+					emitted = strings.Fields(cap.last[r.id])[0]
+				}
+				cap.mu.Unlock()
+				ncalls++
+				nfwd += r.times
+				if r.times == 0 && r.k != ph.Blk {
+					missing[keys[r.k]] = true
+				}
+				end := "end"
+				if r.k == ph.Blk {
+					end = "endx"
+				}
+				evs[r.k][r.b] = map[string]interface{}{"ev": "begin", "c": r.id, "ts": r.ts, "dot": r.dot}
+				evs[r.k][r.e] = map[string]interface{}{"ev": end, "c": r.id, "fwd": r.times > 0, "times": r.times}
+			}
+		}
+		// the bad-metrics records of the input names (records travel through a buffered channel: poll)
+		bad := map[string]string{}
+		deadline := time.Now().Add(20 * time.Second)
+		for {
+			for _, r := range tbl.Bad().Get(24 * time.Hour) {
+				bad[r.Metric] = r.LastMsg
+			}
+			n := 0
+			for k := range missing {
+				if _, ok := bad[k]; !ok {
+					n++
+				}
+			}
+			if n == 0 || time.Now().After(deadline) {
+				break
+			}
+			time.Sleep(time.Millisecond)
+		}
+		for i := 0; i < ph.NK; i++ {
+			lg.Emit(map[string]interface{}{"ev": "hist", "h": ph.H, "fam": "fold", "k": i, "name": keys[i], "blacklisted": i == ph.Blk,
+				"emitted": emitted})
+			for q := int64(1); q <= seq; q++ {
+				if e, ok := evs[i][q]; ok {
+					lg.Emit(e)
+				}
+			}
+			msg, isbad := bad[keys[i]]
+			badcall := int64(0)
+			if f := strings.Fields(msg); isbad && len(f) == 3 && strings.TrimPrefix(f[0], ".") == keys[i] {
+				badcall, _ = strconv.ParseInt(f[1], 10, 64)
+			}
+			lg.Emit(map[string]interface{}{"ev": "finp", "bad": isbad, "badcall": badcall})
+		}
+		lg.Emit(map[string]interface{}{"ev": "hist", "h": ph.H, "fam": "fold-total", "k": -1})
+		lg.Emit(map[string]interface{}{"ev": "total", "n": ncalls, "fwd": nfwd, "ooo": delta})
 	}
 	lg.Emit(map[string]interface{}{"ev": "done", "n": len(lines)})
 }
